@@ -7,6 +7,8 @@
 // (a LinearMap holds distinct keys; `fill` debug-asserts unicast keys / values).  Stated invariant INV_nc, asserted
 // `inv:` on post-states:  every `expires_at <= now + 60 s`,  `silent_until <= now + 1 s`,  len <= 3, keys unicast.
 // The ghost `Model` is the list of filled entries; obligations are written against it.
+// Run under KI4 (IPv4 keys, all 32 bits symbolic): the cache treats keys opaquely (`Eq` only); under KI6 the same
+// harnesses (16-byte symbolic keys, every loop unrolled to the 18 that their comparison needs) run out of 4 GB.
 #[allow(dead_code, unused_imports, unused_variables, unused_mut)]
 mod v_neighbor_cache {
     use super::*;
@@ -139,7 +141,7 @@ mod v_neighbor_cache {
     }
 
     // ------------------------------------------------------------------ lookup is exactly the model
-    // @harness props=C16 cfg=KI4,KI6 tier=q to=600 mem=4 unwind=KI4:8,KI6:18 opts=nomem covers=4 funcs=neighbor::Cache::lookup;neighbor::Cache::fill;neighbor::Cache::fill_with_expiration;neighbor::Cache::limit_rate bounds=cache_of_3_slots_holding_0..=3_entries;_any_unicast_keys_(all_address_bits_symbolic),_any_unicast_Ethernet_addresses,_any_expiries_and_silent_until_(microsecond_resolution);_one_fill_at_any_time_then_one_lookup_of_any_address_at_any_time
+    // @harness props=C16 cfg=KI4 tier=q to=600 mem=4 unwind=8 opts=nomem covers=4 funcs=neighbor::Cache::lookup;neighbor::Cache::fill;neighbor::Cache::fill_with_expiration;neighbor::Cache::limit_rate bounds=cache_of_3_slots_holding_0..=3_entries;_any_unicast_keys_(all_address_bits_symbolic),_any_unicast_Ethernet_addresses,_any_expiries_and_silent_until_(microsecond_resolution);_one_fill_at_any_time_then_one_lookup_of_any_address_at_any_time
     #[kani::proof]
     pub(crate) fn nc_fill_lookup() {
         let now = any_now();
@@ -181,7 +183,7 @@ mod v_neighbor_cache {
     }
 
     // ------------------------------------------------------------------ 60 s lifetime, exact boundary
-    // @harness props=C16 cfg=KI4,KI6 tier=q to=600 mem=4 unwind=KI4:8,KI6:18 opts=nomem covers=3 funcs=neighbor::Cache::fill;neighbor::Cache::lookup bounds=cache_of_3_slots_in_any_state;_fill_at_any_instant_t;_probes_at_t+60s-1us,_t+60s_and_any_later_instant
+    // @harness props=C16 cfg=KI4 tier=q to=600 mem=4 unwind=8 opts=nomem covers=3 funcs=neighbor::Cache::fill;neighbor::Cache::lookup bounds=cache_of_3_slots_in_any_state;_fill_at_any_instant_t;_probes_at_t+60s-1us,_t+60s_and_any_later_instant
     #[kani::proof]
     pub(crate) fn nc_expiry_60s() {
         let now = any_now();
@@ -211,7 +213,7 @@ mod v_neighbor_cache {
     }
 
     // ------------------------------------------------------------------ eviction: the oldest expiry, never another
-    // @harness props=C16 cfg=KI4,KI6 tier=q to=600 mem=4 unwind=KI4:8,KI6:18 opts=nomem covers=3 funcs=neighbor::Cache::fill;neighbor::Cache::fill_with_expiration;neighbor::Cache::lookup bounds=cache_of_3_slots_holding_0..=3_entries_with_any_expiries_(ties_included);_one_fill_of_any_unicast_key_(new_or_known)
+    // @harness props=C16 cfg=KI4 tier=q to=600 mem=4 unwind=8 opts=nomem covers=3 funcs=neighbor::Cache::fill;neighbor::Cache::fill_with_expiration;neighbor::Cache::lookup bounds=cache_of_3_slots_holding_0..=3_entries_with_any_expiries_(ties_included);_one_fill_of_any_unicast_key_(new_or_known)
     #[kani::proof]
     pub(crate) fn nc_evicts_oldest() {
         let now = any_now();
@@ -253,7 +255,7 @@ mod v_neighbor_cache {
     }
 
     // ------------------------------------------------------------------ discovery rate limit
-    // @harness props=C16 cfg=KI4,KI6 tier=q to=600 mem=4 unwind=KI4:8,KI6:18 opts=nomem covers=3 funcs=neighbor::Cache::limit_rate;neighbor::Cache::lookup;neighbor::Cache::flush bounds=cache_of_3_slots_in_any_state;_limit_rate_at_any_instant;_lookup_of_any_address_at_any_instant;_flush
+    // @harness props=C16 cfg=KI4 tier=q to=600 mem=4 unwind=8 opts=nomem covers=4 funcs=neighbor::Cache::limit_rate;neighbor::Cache::lookup;neighbor::Cache::flush bounds=cache_of_3_slots_in_any_state;_limit_rate_at_any_instant;_lookup_of_any_address_at_any_instant;_flush
     #[kani::proof]
     pub(crate) fn nc_rate_limit() {
         let now = any_now();
@@ -277,6 +279,7 @@ mod v_neighbor_cache {
         }
         assert_inv(&c, now);
         kani::cover!(got == Answer::RateLimited && tq > now, "rate limited inside the silent second");
+        kani::cover!(got == Answer::RateLimited && m_has_key(&m, &p), "EXPIRED entry for the looked-up key while silent_until is in the future: RateLimited, not NotFound");
         kani::cover!(got == Answer::NotFound && tq > now, "silent second over");
         // flush empties the map and nothing else
         c.flush();
@@ -287,7 +290,7 @@ mod v_neighbor_cache {
     }
 
     // ------------------------------------------------------------------ refresh needs key AND hardware address
-    // @harness props=C16 cfg=KI4,KI6 tier=q to=600 mem=4 unwind=KI4:8,KI6:18 opts=nomem covers=3 funcs=neighbor::Cache::reset_expiry_if_existing;neighbor::Cache::lookup bounds=cache_of_3_slots_in_any_state;_refresh_with_any_(address,_hardware_address)_at_any_instant
+    // @harness props=C16 cfg=KI4 tier=q to=600 mem=4 unwind=8 opts=nomem covers=3 funcs=neighbor::Cache::reset_expiry_if_existing;neighbor::Cache::lookup bounds=cache_of_3_slots_in_any_state;_refresh_with_any_(address,_hardware_address)_at_any_instant
     #[kani::proof]
     pub(crate) fn nc_reset_expiry() {
         let now = any_now();
